@@ -30,6 +30,7 @@ SIG = {
     -6: 'C14:deep-stack:frames-elided:error',
     -7: 'C14:path-contains-pc=:name-changes',
     -8: 'C14:repeated-sentinel:name-changes',
+    -9: 'C14:monitor:outcome-differs-from-name-derivation',
 }
 TEXT = {
     -1: 'the counter name is longer than the 4096-byte limit',
@@ -39,6 +40,7 @@ TEXT = {
     -5: 'a malformed report gives a name with a frame that is no PC of the first running goroutine (or more than 16)',
     -7: 'two renderings of one report that differ only in " pc=" inside a file path give different names (F17)',
     -8: 'a later line "sentinel <hex>" (message text, not the parent\'s first line) changes the result: the report read with that line as ordinary text is in the genuine format, but the outcome is neither its name nor an error',
+    -9: 'a monitor process fed the crash text through its stdin records something else than the name derivation gives for that text (the size of a message / argument / path changes the result, or the crash is not recorded)',
     -6: 'a genuine traceback of a stack deeper than 100 frames ("...N frames elided...") is refused with an error instead of naming its top 16 frames',
 }
 
@@ -70,7 +72,7 @@ def _verdict(out):
 
 def _tlc_records(rec):
     return {'lines': rec['lines'], 'vid': rec['vid'], 'obs': [
-        {'kind': o['kind'], 'frames': o['frames'], 'lenok': o['lenok'], 'text': o['text'], 'pathpc': o.get('pathpc', False), 'cut': o.get('cut', False)} for o in rec['obs']]}
+        {'kind': o['kind'], 'frames': o['frames'], 'lenok': o['lenok'], 'text': o['text'], 'pathpc': o.get('pathpc', False), 'cut': o.get('cut', False), 'entry': o.get('entry', 'function')} for o in rec['obs']]}
 
 
 def _validate(ctx, recs, label):
@@ -103,6 +105,10 @@ def run(ctx):
         'a PC line of the first running goroutine (between its header, or an ambiguous header line before it, and the first blank / "created by" line after that header, whatever the line pairing)',
         'a crashing goroutine that is locked to its thread ("[running, locked to thread]:") is reported as crash/no-running-goroutine; the '
         'property does not list it, it is recorded as an observation only',
+        'entry points: telemetryCounterName on every text; for a sample of reports also a re-executed monitor process (crashmonitor.Child with '
+        'the counter hook stubbed) fed through stdin, with one message / argument / path blown up so that the 1 MiB mark of the text falls inside '
+        'a pc field, between frames, inside the header, inside the blown-up text and before the end; crash/malformed is read as the error outcome; '
+        'the monitor may record nothing only for texts with fewer than two newlines',
         'the name-length bound is observed on every result; 32 reports of 17 frames with 200..600-byte identifiers (first identifier growing in 10-byte steps) and one real crash through such functions exercise the cut; a cut name (truncation marker) must carry a proper prefix of the expected frames',
     ]
     ctx.inject('internal/crashmonitor', 'internal/verifh/c14')
@@ -156,6 +162,36 @@ def run(ctx):
         v = vrecs[len(vrecs) // 3]
         ctx.sample({'kind': 'observation', 'kinds': v.get('kinds'), 'obs': v['obs']})
     _report(ctx, bad, 'TestVerifC14Vec', inp)
+
+    # ---- 2b. the whole monitor process, fed through a pipe; texts around 1 MiB -------
+    hand = [['SentOk1', 'NoParen', 'Blank', 'HdrRun', 'SymPlain', 'LocPc', 'SymPlain', 'LocPc', 'SymPlain', 'LocPc', 'Blank', 'HdrOtherP', 'SymPlain', 'LocPc', 'Blank'],
+            ['SentOk2', 'NoParen', 'NoParen', 'Blank', 'HdrRun', 'SymPlain', 'LocPc', 'SymSig', 'LocPc', 'SymPlain', 'LocNoPc', 'SymPlain', 'LocPc', 'Created', 'LocNoPc', 'Blank'],
+            ['SentOk1', 'NoParen', 'Blank', 'HdrRun'] + ['SymPlain', 'LocPc'] * 18 + ['Blank', 'HdrOther', 'SymPlain', 'LocPc'],
+            ['SentOk1', 'HdrRun', 'SymPlain', 'LocPc', 'SymPlain', 'LocPc', 'Blank'],
+            ['SentOk1', 'HdrRun', 'SymPlain', 'LocPc'],
+            ['SentOk1', 'NoParen', 'Blank', 'HdrOther', 'SymPlain', 'LocPc', 'Blank'],
+            ['SentOk1', 'NoParen', 'Blank', 'HdrRun', 'SymPlain', 'LocBad', 'NoParen', 'Blank'],
+            ['SentOk1'], ['SentOk1', 'NoParen'], ['SentOk1', 'Blank'], ['SentOk1', 'NoParen', 'Blank'], ['NoParen', 'NoParen', 'NoParen'],
+            ['SentBad', 'NoParen', 'HdrRun', 'SymPlain', 'LocPc'], ['SentOk1', 'NoParen', 'SentOk2', 'HdrRun', 'SymPlain', 'LocPc', 'Blank']]
+    withrun = [v for v in vectors if 'HdrRun' in v['kinds'] and len(v['kinds']) >= 5]
+    nmon = ctx.pick(24, 150)
+    step = max(1, len(withrun) // nmon)
+    mon = [{'id': 3000000 + i, 'kinds': k} for i, k in enumerate(hand)] + [dict(v) for v in withrun[::step][:nmon]]
+    inp = {'vectors': mon}
+    recs, rc, out = ctx.run_harness('./internal/verifh/c14', 'TestVerifC14Monitor', inp=inp, timeout=2400)
+    summ = [x for x in recs if x.get('kind') == 'summary']
+    if not summ or not summ[0].get('spawns'):
+        raise Infra('C14 monitor harness started no monitor process:\n' + out[-2000:])
+    mrecs = [x for x in recs if x.get('kind') == 'rec']
+    ctx.cov['evaluations'] += summ[0]['spawns']
+    ctx.cov['monitor_processes'] = summ[0]['spawns']
+    ctx.cov['monitor_reports'] = len(mrecs)
+    bad = _validate(ctx, mrecs, 'CrashParseTrace-monitor')
+    ctx.cov['traces_validated_against_impl'] += len(mrecs) - len(bad)
+    if mrecs:
+        m0 = mrecs[0]
+        ctx.sample({'kind': 'monitor', 'kinds': m0['kinds'], 'runs': [(d['what'], d['bytes'], d['kind']) for d in m0['details']]})
+    _report(ctx, bad, 'TestVerifC14Monitor', inp)
 
     # ---- 3. genuine crashes, mutations, random bytes --------------------------
     inp = {'mutations': ctx.pick(2000, 40000), 'bytes': ctx.pick(1000, 20000)}
@@ -237,7 +273,7 @@ def _report(ctx, bad, test, inp):
     recs, rc, out = ctx.run_harness('./internal/verifh/c14', test, inp=show, timeout=1200)
     det = {x['id']: x for x in recs if x.get('kind') == 'rec'}
     for (r, cls) in bad:
-        d = r if r.get('texts') else det.get(r['id'], {})
+        d = r if (r.get('texts') or r.get('src') == 'monitor') else det.get(r['id'], {})
         detail = {'src': r.get('src'), 'id': r['id'], 'kinds': r.get('kinds'), 'lines': r['lines'], 'vid': r['vid'], 'obs': r['obs'],
                   'texts': d.get('texts'), 'results': d.get('details')}
         if cls >= 1:
